@@ -42,7 +42,7 @@ def gen_jobs(rng, tier):
     if tier == 'quick':
         n_general, n_linear = 3, 12         # x 13 pairs x 3 kinds ; x 2 kinds
     else:
-        n_general, n_linear = 24, 100
+        n_general, n_linear = 60, 240
     jobs = []
     base = fitgen.gen_cases(rng, n_general * len(fitgen.PAIRS) * 3, tier)
     for i, c in enumerate(base):
@@ -150,9 +150,21 @@ def _fit(gam, X, y, w):
                 last_diff=float(gam.logs_['diffs'][-1]), coef=coef, edof=float(gam.statistics_['edof']))
 
 
+class _Eta(np.ndarray):
+    """link-scale predictions carrying `floor`: the part of a difference that the rounding of mu itself explains
+    (16 ulp of mu through g'(mu); large where the mean saturates, e.g. mu -> levels under the logit link)"""
+    floor = None
+
+
 def _predict_eta(gam, case, Xe):
     with np.errstate(all='ignore'):
-        return _eta(case, gam.predict_mu(Xe))
+        mu = np.asarray(gam.predict_mu(Xe), dtype=float)
+        eta = _eta(case, mu).view(_Eta)
+        levels = float(case['levels'])
+        g = np.abs(fitgen.np_grad(case['link'], levels, mu))
+        fl = 16 * EPS * g * (np.abs(mu) + (levels if case['link'] == 'logit' else 0.0))
+        eta.floor = np.where(np.isfinite(fl), fl, np.inf)
+    return eta
 
 
 def _system(gam, case, X, y, w, coef=None):
@@ -203,14 +215,19 @@ def _dev_finite(*gams):
 
 def _reldiff(e0, e1, scale=None):
     """max |e0 - e1| over the entries finite in both, relative to 1 + max |e| there; and the number of entries compared"""
+    floor = 0.0
+    for e in (e0, e1):
+        if getattr(e, 'floor', None) is not None:
+            floor = floor + np.asarray(e.floor, dtype=float).ravel()
     e0 = np.asarray(e0, dtype=float).ravel()
     e1 = np.asarray(e1, dtype=float).ravel()
-    fin = np.isfinite(e0) & np.isfinite(e1)
+    fin = np.isfinite(e0) & np.isfinite(e1) & np.isfinite(floor)
     if not fin.any():
         return 0.0, 0, 0
     sc = (1.0 + np.abs(e0[fin]).max()) if scale is None else scale
     mism = int((np.isfinite(e0) != np.isfinite(e1)).sum())
-    return float(np.abs(e0[fin] - e1[fin]).max() / sc), int(fin.sum()), mism
+    diff = np.maximum(np.abs(e0 - e1) - floor, 0.0)
+    return float(diff[fin].max() / sc), int(fin.sum()), mism
 
 
 def _q(x):
@@ -228,12 +245,35 @@ def _eval_rows(b, k=8):
     return np.vstack([b['Xq'], b['X'][:k]])
 
 
+def _pick_perm(rs, X, feats=None):
+    """random shuffles and the boundary cases of row order: reversal, rotation, the rows holding the extremes of a
+    used column moved to the last / first position (where off-by-one row slicing hides)"""
+    n = X.shape[0]
+    r = rs.random()
+    if r < 0.3 or n < 3:
+        return rs.permutation(n)
+    if r < 0.4:
+        return np.arange(n)[::-1].copy()
+    if r < 0.5:
+        return np.roll(np.arange(n), int(rs.integers(1, n)))
+    feats = list(feats) if feats else list(range(X.shape[1]))
+    j = int(feats[int(rs.integers(0, len(feats)))])
+    imax, imin = int(np.argmax(X[:, j])), int(np.argmin(X[:, j]))
+    if imax == imin:
+        return rs.permutation(n)
+    rest = [int(k) for k in rs.permutation(n) if k != imax and k != imin]
+    arr = int(rs.integers(0, 6))
+    order = [rest + [imin, imax], [imax, imin] + rest, rest + [imax, imin], [imin, imax] + rest,
+             [imin] + rest + [imax], [imax] + rest + [imin]][arr]
+    return np.array(order)
+
+
 def _job_perm(job, pygam):
     case = job['case']
     b0, b1 = _build(case, pygam), _build(case, pygam)
     X, y, w = b0['X'], b0['y'], b0['weights']
     n = X.shape[0]
-    perm = np.random.default_rng(job['sub']).permutation(n)
+    perm = _pick_perm(np.random.default_rng(job['sub']), X, sorted({int(s_.feature) for _t, s_ in _leaves(b0['gam'].terms)}))
     f0 = _fit(b0['gam'], X, y, w)
     f1 = _fit(b1['gam'], X[perm].copy(), y[perm].copy(), None if w is None else w[perm].copy())
     res = dict(st0=f0['status'], st1=f1['status'], desc=b0['desc'], msg=f0.get('msg', '') or f1.get('msg', ''))
@@ -567,6 +607,8 @@ def _judge(r):
     """-> (list of reasons the relation is violated at 10x the tolerance, thr, judged?)"""
     kind = r['job']['kind']
     thr = max(1e-6, 10 * EPS * r['cond'])
+    if kind == 'repl':
+        thr = max(thr, 3e-6)        # the code computes 1/w in float32 (weights.astype('f') ** -1): relative error 6e-8 in W²
     if thr > 1e-3:
         return [], thr, False
     bad = []
@@ -622,12 +664,14 @@ def _judge(r):
                 tc = 10 * max(tol, 10 * EPS * r['cond'] ** 1.0) + ts / max(abs(s0), 1e-300)
                 if tc < 1e-1 and not (r['d_cov'] <= tc):
                     bad.append('cov(c y)/c² differs from cov(y) by %.3g (relative Frobenius) > %.3g' % (r['d_cov'], tc))
-                # p-values: only terms whose covariance block has an unambiguous numerical rank
-                if ts <= 1e-6 * abs(s0):
-                    for i, (pa, pb, mg) in enumerate(zip(r['p0'], r['p1'], r['rank_margin'])):
-                        if mg >= 3.0 and np.isfinite(pa) and np.isfinite(pb):
-                            if not (abs(pa - pb) <= 1e-5 + 100 * tol):
-                                bad.append('p-value of term %d changes from %.12g to %.12g' % (i, pa, pb))
+        # p-values: only terms whose covariance block has an unambiguous numerical rank (all singular values 3 decades
+        # away from the relative cut-off of the pseudo-inverse)
+        for i, (pa, pb, mg) in enumerate(zip(r['p0'], r['p1'], r['rank_margin'])):
+            if mg >= 3.0:
+                if np.isfinite(pa) != np.isfinite(pb):
+                    bad.append('p-value of term %d is finite in only one of the fits: %r vs %r' % (i, pa, pb))
+                elif np.isfinite(pa) and not (abs(pa - pb) <= 1e-5 + 100 * tol):
+                    bad.append('p-value of term %d changes from %.12g to %.12g' % (i, pa, pb))
     return bad, thr, True
 
 
